@@ -1647,6 +1647,7 @@ class ExtendedToStreamDecorator(CopyStreamResult, StreamSummary, TestControl):
         # Deal with mismatched base class constructors.
         TestControl.__init__(self)
         self._started = False
+        self.__now = None
 
     def _get_failfast(self):
         return len(self.targets) == 2
@@ -1662,8 +1663,7 @@ class ExtendedToStreamDecorator(CopyStreamResult, StreamSummary, TestControl):
     failfast = property(_get_failfast, _set_failfast)
 
     def startTest(self, test):
-        if not self._started:
-            self.startTestRun()
+        self._ensure_started()
         self.status(test_id=test.id(), test_status="inprogress", timestamp=self._now())
         self._tags = TagContext(self._tags)
 
@@ -1679,8 +1679,7 @@ class ExtendedToStreamDecorator(CopyStreamResult, StreamSummary, TestControl):
     addFailure = addError
 
     def _convert(self, test, err, details, status, reason=None):
-        if not self._started:
-            self.startTestRun()
+        self._ensure_started()
         test_id = test.id()
         now = self._now()
         if err is not None:
@@ -1758,6 +1757,13 @@ class ExtendedToStreamDecorator(CopyStreamResult, StreamSummary, TestControl):
         self.__now = None
         self._started = True
 
+    def _ensure_started(self):
+        """Start the run implicitly, keeping a time() supplied before it."""
+        if not self._started:
+            now = self.__now
+            self.startTestRun()
+            self.__now = now
+
     @property
     def current_tags(self):
         """The currently set tags."""
@@ -1787,8 +1793,7 @@ class ExtendedToStreamDecorator(CopyStreamResult, StreamSummary, TestControl):
         self.__now = a_datetime
 
     def wasSuccessful(self):
-        if not self._started:
-            self.startTestRun()
+        self._ensure_started()
         return super().wasSuccessful()
 
 
